@@ -21,8 +21,11 @@ def own_chunks(T):
         if c.in_pp and '\\\n' in t and not (t[:1] in '"\'' or t.startswith(('R"', 'L"', 'u"', 'U"', 'u8"'))):
             # a backslash-newline inside a directive is deleted in translation phase 2: '# \<newline> endif' is '# endif'
             t = t.replace('\\\n', '')
-            if not t:
-                continue
+        if c.in_pp and c.type in ('PREPROC_BODY', 'PP_OTHER', 'PP_IGNORE') and not (t[:1] in '"\''):
+            # a directive body kept as one chunk holds the blanks between its tokens: they are no characters of the token stream
+            t = re.sub(r'[ \t\n]+', '', t)
+        if not t:
+            continue
         out.append((t, c.in_pp))
     return out
 
